@@ -417,14 +417,14 @@ theorem seize_drift {E : Env} {s s' : St} {id : Nat} {c : Cdp} {deps : List (Acc
   obtain ⟨F1, -⟩ := sendB_frame h1
   unfold seizeDeps at h2
   obtain ⟨k1, k2, k3⟩ := sendDeps_frame _ _ _ _ _ _ h2
-  have hcd : ∀ (l : List (Acct × Int)) (a b : St) (cd : Denom) (tot d : Int), auctionDeps a cd tot d l = .ok b →
+  have hcd : ∀ (l : List (Acct × Int)) (a b : St) (cd : Denom) (tot d rem : Int), auctionDeps a cd tot d rem l = .ok b →
       b.cdp = a.cdp ∧ b.nextId = a.nextId ∧ b.tprin = a.tprin := by
     intro l
     induction l with
-    | nil => intro a b cd tot d hh; simp only [auctionDeps] at hh; cases hh; exact ⟨rfl, rfl, rfl⟩
+    | nil => intro a b cd tot d rem hh; simp only [auctionDeps] at hh; cases hh; exact ⟨rfl, rfl, rfl⟩
     | cons hd tl ih =>
       obtain ⟨x, amt⟩ := hd
-      intro a b cd tot d hh
+      intro a b cd tot d rem hh
       simp only [auctionDeps] at hh
       split at hh
       · cases hh
@@ -438,9 +438,9 @@ theorem seize_drift {E : Env} {s s' : St} {id : Nat} {c : Cdp} {deps : List (Acc
       rename_i a2 ha2
       obtain ⟨Fa, -⟩ := sendB_frame ha1
       obtain ⟨Fb, -⟩ := sendB_frame ha2
-      obtain ⟨i1, i2, i3⟩ := ih _ b _ _ _ hh
+      obtain ⟨i1, i2, i3⟩ := ih _ b _ _ _ _ hh
       exact ⟨(i1.trans Fb.cdp).trans Fa.cdp, (i2.trans Fb.nextId).trans Fa.nextId, (i3.trans Fb.tprin).trans Fa.tprin⟩
-  obtain ⟨a1, a2, a3⟩ := hcd _ _ _ _ _ _ h3
+  obtain ⟨a1, a2, a3⟩ := hcd _ _ _ _ _ _ _ h3
   have ec : s3.cdp = s.cdp := (a1.trans k1).trans F1.cdp
   have en : s3.nextId = s.nextId := (a2.trans k2).trans F1.nextId
   have et : s3.tprin = s.tprin := (a3.trans k3).trans F1.tprin
@@ -564,14 +564,14 @@ theorem liquidate_drift {E : Env} {g : Int} {now : Int} {s s' : St} {keeper owne
         obtain ⟨F1, -⟩ := sendB_frame y1
         unfold seizeDeps at y2
         obtain ⟨-, k2, -⟩ := sendDeps_frame _ _ _ _ _ _ y2
-        have hcd : ∀ (l : List (Acct × Int)) (a b : St) (cd : Denom) (tot d : Int), auctionDeps a cd tot d l = .ok b →
+        have hcd : ∀ (l : List (Acct × Int)) (a b : St) (cd : Denom) (tot d rem : Int), auctionDeps a cd tot d rem l = .ok b →
             b.nextId = a.nextId := by
           intro l
           induction l with
-          | nil => intro a b cd tot d hh; simp only [auctionDeps] at hh; cases hh; rfl
+          | nil => intro a b cd tot d rem hh; simp only [auctionDeps] at hh; cases hh; rfl
           | cons hd tl ih =>
             obtain ⟨x, amt⟩ := hd
-            intro a b cd tot d hh
+            intro a b cd tot d rem hh
             simp only [auctionDeps] at hh
             split at hh
             · cases hh
@@ -585,9 +585,9 @@ theorem liquidate_drift {E : Env} {g : Int} {now : Int} {s s' : St} {keeper owne
             rename_i a2 ha2
             obtain ⟨Fa, -⟩ := sendB_frame ha1
             obtain ⟨Fb, -⟩ := sendB_frame ha2
-            exact ((ih _ b _ _ _ hh).trans Fb.nextId).trans Fa.nextId
+            exact ((ih _ b _ _ _ _ hh).trans Fb.nextId).trans Fa.nextId
         dsimp only
-        rw [hcd _ _ _ _ _ _ y3, k2, F1.nextId, hn4]
+        rw [hcd _ _ _ _ _ _ _ y3, k2, F1.nextId, hn4]
       have hoth' : ∀ j, j ≠ id → s'.cdp j = s.cdp j := by
         intro j hj
         -- from the debt-side equation of the seizure we only need the table: re-derive it from `seize_drift`'s source
@@ -609,14 +609,14 @@ theorem liquidate_drift {E : Env} {g : Int} {now : Int} {s s' : St} {keeper owne
         obtain ⟨F1, -⟩ := sendB_frame y1
         unfold seizeDeps at y2
         obtain ⟨k1, -, -⟩ := sendDeps_frame _ _ _ _ _ _ y2
-        have hcd : ∀ (l : List (Acct × Int)) (a b : St) (cd : Denom) (tot d : Int), auctionDeps a cd tot d l = .ok b →
+        have hcd : ∀ (l : List (Acct × Int)) (a b : St) (cd : Denom) (tot d rem : Int), auctionDeps a cd tot d rem l = .ok b →
             b.cdp = a.cdp := by
           intro l
           induction l with
-          | nil => intro a b cd tot d hh; simp only [auctionDeps] at hh; cases hh; rfl
+          | nil => intro a b cd tot d rem hh; simp only [auctionDeps] at hh; cases hh; rfl
           | cons hd tl ih =>
             obtain ⟨x, amt⟩ := hd
-            intro a b cd tot d hh
+            intro a b cd tot d rem hh
             simp only [auctionDeps] at hh
             split at hh
             · cases hh
@@ -630,9 +630,9 @@ theorem liquidate_drift {E : Env} {g : Int} {now : Int} {s s' : St} {keeper owne
             rename_i a2 ha2
             obtain ⟨Fa, -⟩ := sendB_frame ha1
             obtain ⟨Fb, -⟩ := sendB_frame ha2
-            exact ((ih _ b _ _ _ hh).trans Fb.cdp).trans Fa.cdp
+            exact ((ih _ b _ _ _ _ hh).trans Fb.cdp).trans Fa.cdp
         dsimp only
-        rw [upd_other _ _ _ _ hj, hcd _ _ _ _ _ _ y3, k1, F1.cdp]
+        rw [upd_other _ _ _ _ hj, hcd _ _ _ _ _ _ _ y3, k1, F1.cdp]
         exact hoth4 j hj
       rw [sumDebt_pointwise t hlt hn' hoth', ho, hgone]
       simp only [debtIn]
